@@ -261,9 +261,9 @@ for n in "fn convexity slices".split():
     KIND[n] = "u"
 for n in "center cut invert auto auto_x auto_y auto_z chamfer".split():
     KIND[n] = "b"
-for n in "text font language script file hex".split():
+for n in "text font language script file".split():
     KIND[n] = "s"
-KIND.update(halign="kh", valign="kv", direction="kd", color="kc", paths="paths", faces="paths", params="params")
+KIND.update(hex="x", halign="kh", valign="kv", direction="kd", color="kc", paths="paths", faces="paths", params="params")
 
 def kind_of(macro, mv):
     if mv == "points":
